@@ -143,5 +143,6 @@ def src_alt(v):
     if k == "Enum":
         return v["n"] + ("(" + src_alt(v["p"]) + ")" if v["has"] else "")
     if k == "Struct":
-        return v["n"] + "{ " + ", ".join(f + ": " + src_alt(x) for f, x in zip(v["fs"], v["vs"])) + " }"
+        # the same struct value written with its fields in the opposite order
+        return v["n"] + "{ " + ", ".join(f + ": " + src_alt(x) for f, x in reversed(list(zip(v["fs"], v["vs"])))) + " }"
     raise ValueError(k)
